@@ -124,6 +124,24 @@ def _loops_over(cfg, method: str):
     return lambda o: bool(_loop_calls(cfg, o, method))
 
 
+def _comp_target_over(cfg, e: Optional[ast.expr], at, method: str) -> bool:
+    """``e`` is the (plain) loop variable of an enclosing generator expression / comprehension whose iterable is a
+    ``<...>.method(...)`` call (possibly bound to a local before): the comprehension spelling of ``_loops_over``."""
+    if not isinstance(e, ast.Name):
+        return False
+    p = getattr(e, "_parent", None)
+    while p is not None and not isinstance(p, (ast.FunctionDef, ast.AsyncFunctionDef, ast.Lambda)):
+        if isinstance(p, (ast.GeneratorExp, ast.ListComp, ast.SetComp)):
+            for g in p.generators:
+                if isinstance(g.target, ast.Name) and g.target.id == e.id:
+                    its = origins(cfg, g.iter, at)
+                    return bool(its) and all(x.kind == "expr" and not x.path and isinstance(x.expr, ast.Call) and last_attr(x.expr) == method for x in its)
+                if any(isinstance(n, ast.Name) and n.id == e.id for n in ast.walk(g.target)):
+                    return False
+        p = getattr(p, "_parent", None)
+    return False
+
+
 def _value_key(cfg, e: Optional[ast.expr], at) -> Optional[frozenset]:
     """Comparable key of a value: two expressions with equal keys evaluate the same text
     over the same local objects."""
@@ -215,30 +233,88 @@ def _r24g(chk, repo) -> None:
 
 
 def _r24h(chk, repo, mod) -> None:
-    """Every sequenced file becomes a task, whichever runner dispatches it."""
+    """Every sequenced file becomes a task, whichever runner dispatches it.
+
+    A dispatch loop is a ``for`` with a ``yield`` in its body, or a generator expression / list comprehension handed to
+    ``yield from`` (directly or through a local); it is looked for in ``iter_partials`` and in the generators of the
+    same class / module / function that ``iter_partials`` delegates to with ``yield from <call>`` (``super()`` leads
+    to the other anchored function and is not followed)."""
     from ..flowutil import must_pass
+
+    funcs = dict(mod.functions())
+
+    def delegates(q, f):
+        """Generators that ``f`` hands over to with ``yield from``: nested functions, methods of its class, module functions."""
+        out = []
+        cls_q = q.rsplit(".", 2)[0] if "." in q else None
+        for y in [x for x in walk_local(f) if isinstance(x, ast.YieldFrom) and isinstance(x.value, ast.Call)]:
+            fn = y.value.func
+            if isinstance(fn, ast.Name):
+                nested = [d for d in ast.walk(f) if isinstance(d, ast.FunctionDef) and d is not f and d.name == fn.id]
+                if nested:
+                    out.append((f"{q}.<locals>.{fn.id}", nested[0]))
+                elif fn.id in funcs:
+                    out.append((fn.id, funcs[fn.id]))
+            elif isinstance(fn, ast.Attribute) and isinstance(fn.value, ast.Name) and fn.value.id in ("self", "cls"):
+                owner = q.rsplit(".", 1)[0] if "." in q else None
+                while owner:
+                    if f"{owner}.{fn.attr}" in funcs:
+                        out.append((f"{owner}.{fn.attr}", funcs[f"{owner}.{fn.attr}"]))
+                        break
+                    # a method inherited from a base class of the same module
+                    try:
+                        bases = [b.id for b in repo.cls(RUNNER, owner).bases if isinstance(b, ast.Name)]
+                    except AnalysisError:
+                        bases = []
+                    owner = bases[0] if bases else None
+        return out
 
     n = 0
     for q, f in mod.functions():
         if not q.endswith(".iter_partials"):
             continue
-        cfg = cfg_of(f)
-        for l in [x for x in walk_local(f) if isinstance(x, ast.For)]:
-            ys = [st for b in l.body for st in ast.walk(b) if isinstance(st, ast.Expr) and isinstance(st.value, (ast.Yield, ast.YieldFrom))]
-            if not ys:
+        todo, seen = [(q, f)], set()
+        while todo:
+            gq, g = todo.pop()
+            if id(g) in seen or len(seen) > 6:
                 continue
-            n += 1
-            chk.require(
-                (any(l.body[0] is y for y in ys) or must_pass(cfg, l.body[0], l, ys)) and not any(isinstance(x, ast.Break) for b in l.body for x in ast.walk(b)), "R24h", l,
-                f"{q}: a path through the loop over the files to lint reaches the next file without yielding a task for this one (a test made in the dispatching process, with the run-wide "
-                "config): the file is dropped here although the per-file decision -- made where the file is loaded, with the file's own config -- may differ; serial and parallel runs then disagree",
-                detail=f"{q}: every sequenced file yields a task",
-            )
-        for st in walk_local(f):
-            tg = st.target if isinstance(st, ast.AugAssign) else (st.targets[0] if isinstance(st, ast.Assign) and len(st.targets) == 1 else None)
-            if isinstance(tg, ast.Attribute) and tg.attr == "skipped_file_count":
-                chk.fail("R24h", st, f"{q} counts a skipped file while dispatching: the skip decision belongs to the load of the file (its own config), the runner only counts SQLFluffSkipFile it receives",
-                         detail=f"{q}: no skip counting at dispatch")
+            seen.add(id(g))
+            if not gq.endswith(".iter_partials"):
+                todo += delegates(gq, g)
+            else:
+                todo += [(dq, d) for dq, d in delegates(gq, g) if not dq.endswith(".iter_partials")]
+            cfg = cfg_of(g)
+            for l in [x for x in walk_local(g) if isinstance(x, ast.For)]:
+                ys = [st for b in l.body for st in ast.walk(b) if isinstance(st, ast.Expr) and isinstance(st.value, (ast.Yield, ast.YieldFrom))]
+                if not ys:
+                    continue
+                n += 1
+                chk.require(
+                    (any(l.body[0] is y for y in ys) or must_pass(cfg, l.body[0], l, ys)) and not any(isinstance(x, ast.Break) for b in l.body for x in ast.walk(b)), "R24h", l,
+                    f"{q}: a path through the loop over the files to lint reaches the next file without yielding a task for this one (a test made in the dispatching process, with the run-wide "
+                    "config): the file is dropped here although the per-file decision -- made where the file is loaded, with the file's own config -- may differ; serial and parallel runs then disagree",
+                    detail=f"{q}: every sequenced file yields a task",
+                )
+            for y in [x for x in walk_local(g) if isinstance(x, ast.YieldFrom)]:
+                v = y.value
+                if isinstance(v, ast.Name):
+                    os_ = origins(cfg, v, cfg.stmt_of(y))
+                    if len(os_) == 1 and os_[0].kind == "expr" and not os_[0].path:
+                        v = os_[0].expr
+                if not isinstance(v, (ast.GeneratorExp, ast.ListComp)):
+                    continue
+                n += 1
+                chk.require(
+                    not any(c.ifs for c in v.generators), "R24h", y,
+                    f"{q}: the generator expression that turns the files to lint into tasks has a filter: a file is dropped in the dispatching process (with the run-wide config) although "
+                    "the per-file decision is made where the file is loaded; serial and parallel runs then disagree",
+                    detail=f"{q}: every sequenced file yields a task",
+                )
+            for st in walk_local(g):
+                tg = st.target if isinstance(st, ast.AugAssign) else (st.targets[0] if isinstance(st, ast.Assign) and len(st.targets) == 1 else None)
+                if isinstance(tg, ast.Attribute) and tg.attr == "skipped_file_count":
+                    chk.fail("R24h", st, f"{q} counts a skipped file while dispatching: the skip decision belongs to the load of the file (its own config), the runner only counts SQLFluffSkipFile it receives",
+                             detail=f"{q}: no skip counting at dispatch")
     chk.count("R24h.dispatch_loops", n)
     chk.floor("R24h.dispatch_loops", 2)
 
@@ -365,7 +441,7 @@ def _r24a(chk, repo, mod) -> None:
             if last_attr(c) == "DeferredRenderTask":
                 st = cfg.stmt_of(c)
                 a = {name: _arg(c, i, name) for i, name in enumerate(fields)}
-                ok0 = _leaves_are(cfg, a["fname"], st, _loops_over(cfg, "sequence_files"))
+                ok0 = _leaves_are(cfg, a["fname"], st, _loops_over(cfg, "sequence_files")) or _comp_target_over(cfg, a["fname"], st, "sequence_files")
                 ok1 = _leaves_are(cfg, a["root_config"], st, _is_text("self.config"))
                 ok2 = _leaves_are(cfg, a["fix"], st, _is_param)
                 ok3 = _leaves_are(cfg, a["user_rules"], st, lambda o: o.kind == "expr" and isinstance(o.expr, ast.AST) and _mentions(cfg, o.expr, o.stmt, "self.linter.user_rules"))
@@ -1027,6 +1103,56 @@ VARIANTS = [
         "        cfg = config or self.config\n        return rs.get_rulepack(config=cfg)\n",
         "        cfg = config or self.config\n        key = (cfg.get(\"dialect\"), tuple(cfg.get(\"rule_allowlist\") or ()))\n        cache = self.__dict__.setdefault(\"_rulepacks\", {})\n        if key not in cache:\n            self._rulepacks[key] = rs.get_rulepack(config=cfg)\n        return cache[key]\n",
         "R24g", "get_rulepack", "seeded C24-5 (same shape): the first file's rule options stick for the rest of a serial run",
+    ),
+    # behaviour-preserving refactors: must stay quiet (R24h sweep)
+    Variant(
+        'quiet-dispatch-as-a-generator-expression', RUNNER,
+        '            for fname in self.linter.templater.sequence_files(\n                fnames, config=self.config, formatter=None\n            ):\n                yield (\n                    fname,\n                    DeferredRenderTask(\n                        fname, self.config, fix, tuple(self.linter.user_rules)\n                    ),\n                )\n',
+        '            yield from (\n                (fname, DeferredRenderTask(fname, self.config, fix, tuple(self.linter.user_rules)))\n                for fname in self.linter.templater.sequence_files(\n                    fnames, config=self.config, formatter=None\n                )\n            )\n',
+        'QUIET', None, 'R24h: the loop as a generator expression without a filter',
+    ),
+    Variant(
+        'quiet-dispatch-task-and-sequence-through-locals', RUNNER,
+        '            for fname in self.linter.templater.sequence_files(\n                fnames, config=self.config, formatter=None\n            ):\n                yield (\n                    fname,\n                    DeferredRenderTask(\n                        fname, self.config, fix, tuple(self.linter.user_rules)\n                    ),\n                )\n',
+        '            sequenced = self.linter.templater.sequence_files(\n                fnames, config=self.config, formatter=None\n            )\n            user_rules = tuple(self.linter.user_rules)\n            for path in sequenced:\n                task = DeferredRenderTask(path, self.config, fix, user_rules)\n                yield path, task\n',
+        'QUIET', None, 'R24h: sequence, task and loop variable through locals',
+    ),
+    Variant(
+        'quiet-dispatch-loop-in-a-helper-generator', RUNNER,
+        '            for fname in self.linter.templater.sequence_files(\n                fnames, config=self.config, formatter=None\n            ):\n                yield (\n                    fname,\n                    DeferredRenderTask(\n                        fname, self.config, fix, tuple(self.linter.user_rules)\n                    ),\n                )\n',
+        '            yield from self._deferred_tasks(fnames, fix)\n        else:\n            yield from super().iter_partials(fnames, fix=fix)\n\n    def _deferred_tasks(self, fnames, fix):\n        """One deferred task per sequenced file."""\n        if True:\n            for fname in self.linter.templater.sequence_files(\n                fnames, config=self.config, formatter=None\n            ):\n                yield (\n                    fname,\n                    DeferredRenderTask(\n                        fname, self.config, fix, tuple(self.linter.user_rules)\n                    ),\n                )\n',
+        'QUIET', None, 'R24h: the loop moved into a helper generator of the same class',
+    ),
+    Variant(
+        'quiet-dispatch-early-return-for-main-process-templaters', RUNNER,
+        '        if self.linter.templater.templates_in_worker:\n            for fname in self.linter.templater.sequence_files(\n                fnames, config=self.config, formatter=None\n            ):\n                yield (\n                    fname,\n                    DeferredRenderTask(\n                        fname, self.config, fix, tuple(self.linter.user_rules)\n                    ),\n                )\n        else:\n            yield from super().iter_partials(fnames, fix=fix)\n',
+        '        if not self.linter.templater.templates_in_worker:\n            yield from super().iter_partials(fnames, fix=fix)\n            return\n        for fname in self.linter.templater.sequence_files(\n            fnames, config=self.config, formatter=None\n        ):\n            yield (\n                fname,\n                DeferredRenderTask(\n                    fname, self.config, fix, tuple(self.linter.user_rules)\n                ),\n            )\n',
+        'QUIET', None, 'R24h: if/else as an early return',
+    ),
+    Variant(
+        'quiet-serial-dispatch-partial-through-a-local-and-logging', RUNNER,
+        "        for fname, rendered in self.iter_rendered(fnames):\n            # Generate a fresh ruleset\n            rule_pack = self.linter.get_rulepack(config=rendered.config)\n            yield (\n                fname,\n                functools.partial(\n                    self.linter.lint_rendered,\n                    rendered,\n                    rule_pack,\n                    fix,\n                    # Formatters may or may not be passed. They don't pickle\n                    # nicely so aren't appropriate in a multiprocessing world.\n                    self.linter.formatter if self.pass_formatter else None,\n                ),\n            )\n",
+        '        for fname, rendered in self.iter_rendered(fnames):\n            # Generate a fresh ruleset\n            rule_pack = self.linter.get_rulepack(config=rendered.config)\n            if self.pass_formatter:\n                formatter = self.linter.formatter\n            else:\n                formatter = None\n            partial = functools.partial(\n                self.linter.lint_rendered, rendered, rule_pack, fix, formatter\n            )\n            yield fname, partial\n',
+        'QUIET', None, 'R24h: a branch in the loop body that does not skip the yield',
+    ),
+    # breaking twins of the spellings above
+    Variant(
+        'dispatch-generator-expression-with-a-filter', RUNNER,
+        '            for fname in self.linter.templater.sequence_files(\n                fnames, config=self.config, formatter=None\n            ):\n                yield (\n                    fname,\n                    DeferredRenderTask(\n                        fname, self.config, fix, tuple(self.linter.user_rules)\n                    ),\n                )\n',
+        '            yield from (\n                (fname, DeferredRenderTask(fname, self.config, fix, tuple(self.linter.user_rules)))\n                for fname in self.linter.templater.sequence_files(\n                    fnames, config=self.config, formatter=None\n                )\n                if not fname.endswith(".jinja")\n            )\n',
+        'R24h', 'ParallelRunner.iter_partials', 'generator twin: a filter drops files at dispatch',
+    ),
+    Variant(
+        'dispatch-helper-generator-skips-files', RUNNER,
+        '            for fname in self.linter.templater.sequence_files(\n                fnames, config=self.config, formatter=None\n            ):\n                yield (\n                    fname,\n                    DeferredRenderTask(\n                        fname, self.config, fix, tuple(self.linter.user_rules)\n                    ),\n                )\n',
+        '            yield from self._deferred_tasks(fnames, fix)\n        else:\n            yield from super().iter_partials(fnames, fix=fix)\n\n    def _deferred_tasks(self, fnames, fix):\n        """One deferred task per sequenced file."""\n        if True:\n            for fname in self.linter.templater.sequence_files(\n                fnames, config=self.config, formatter=None\n            ):\n                if self.config.get("ignore_templated_areas") and fname.startswith("_"):\n                    continue\n                yield (\n                    fname,\n                    DeferredRenderTask(\n                        fname, self.config, fix, tuple(self.linter.user_rules)\n                    ),\n                )\n',
+        'R24h', 'ParallelRunner.iter_partials', 'helper twin: the helper generator drops a file',
+    ),
+    Variant(
+        'dispatch-helper-generator-counts-a-skip', RUNNER,
+        '            for fname in self.linter.templater.sequence_files(\n                fnames, config=self.config, formatter=None\n            ):\n                yield (\n                    fname,\n                    DeferredRenderTask(\n                        fname, self.config, fix, tuple(self.linter.user_rules)\n                    ),\n                )\n',
+        '            yield from self._deferred_tasks(fnames, fix)\n        else:\n            yield from super().iter_partials(fnames, fix=fix)\n\n    def _deferred_tasks(self, fnames, fix):\n        """One deferred task per sequenced file."""\n        if True:\n            for fname in self.linter.templater.sequence_files(\n                fnames, config=self.config, formatter=None\n            ):\n                if not fname:\n                    self.linter.skipped_file_count += 1\n                yield (\n                    fname,\n                    DeferredRenderTask(\n                        fname, self.config, fix, tuple(self.linter.user_rules)\n                    ),\n                )\n',
+        'R24h', 'ParallelRunner.iter_partials', 'helper twin: a skip counted in the helper generator',
     ),
     # behaviour-preserving refactors: must stay quiet
     Variant("quiet-worker-rule-pack-through-locals", RUNNER,
